@@ -59,6 +59,9 @@ Reinit == Between /\ Call("reinit", "", "ok", [st EXCEPT !.utt = "idle", !.gram 
 ReinitFeat == Between /\ Call("reinitfeat", "", "ok", st)
 Retain == st.rc = 1 /\ Call("retain", "", "obj", [st EXCEPT !.rc = 2])
 Release == st.rc = 2 /\ Call("release", "", "n", [st EXCEPT !.rc = 1])
+\* the last reference is released IN ANY STATE - in mid-utterance too, with audio fed or not: nothing is called afterwards
+\* (what LeakSanitizer then finds at process exit is what "every allocation has been freed" is about)
+Free == st.rc = 1 /\ Call("free", "", "n", [st EXCEPT !.utt = "freed"])
 
 FeedKinds == {"tiny", "norm", "f32", "long", "f32long", "zero", "nosearch", "f32nosearch", "full", "full-nosearch"}
 GramKinds == {"jsgf", "align", "fsg", "jsgffile", "bad-syntax", "undefined-rule", "unknown-word", "fsg-unknown-word", "no-public",
@@ -68,8 +71,8 @@ Queries == {<<"hyp", "0">>, <<"segiter", "0">>, <<"segiter", "1">>, <<"segiter",
             <<"nbestiter", "1">>, <<"lattice", "0">>, <<"lattice", "1">>, <<"alignwalk", "0">>, <<"alignwalk", "1">>,
             <<"json", "0">>, <<"json", "1">>, <<"json", "2">>}
 
-Next == /\ n < MaxLen /\ n' = n + 1
-        /\ \/ Start \/ End \/ Reinit \/ ReinitFeat \/ Retain \/ Release
+Next == /\ n < MaxLen /\ n' = n + 1 /\ st.utt # "freed"
+        /\ \/ Start \/ End \/ Free \/ Reinit \/ ReinitFeat \/ Retain \/ Release
            \/ \E k \in FeedKinds : Feed(k)
            \/ \E q \in Queries : Query(q[1], q[2])
            \/ \E k \in GramKinds : SetGram(k)
@@ -79,7 +82,7 @@ Next == /\ n < MaxLen /\ n' = n + 1
            \/ Info("lookup", "0", "obj") \/ Info("lookup", "1", "null") \/ Info("lookup", "2", "null") \/ Info("config", "", "obj")
 Spec == Init /\ [][Next]_vars
 
-TypeOK == st.utt \in {"idle", "started", "ended"} /\ st.rc \in 1..2
+TypeOK == st.utt \in {"idle", "started", "ended", "freed"} /\ st.rc \in 1..2
 \* the protocol's own consistency: audio only counts inside an utterance; no utterance without a grammar
 NoUttWithoutGrammar == st.utt = "started" => st.gram
 ErrorsChangeNothing == last[3] = "err" => TRUE      \* (by construction: every err edge is a self-loop; see Call)
